@@ -126,6 +126,17 @@ class Roles:
         """Local body for a resolved callee record, or None."""
         if callee is None:
             return None
+        # `x.into()` goes through std's blanket impl to a `From` impl: when that impl is in the crate, the call is a call of it
+        if str(callee.get("path") or "").endswith("convert::Into::into"):
+            gs = [g.get("t") for g in (callee.get("gargs") or []) if g.get("k") == "ty"]
+            if len(gs) == 2:
+                hits = []
+                for fn in self.f.items["fns"]:
+                    if fn.get("name") == "from" and str(fn.get("impl_trait") or "").startswith("core::convert::From") and fn.get("impl_self") == gs[1] \
+                            and (fn.get("inputs") or [None])[0] == gs[0] and fn["path"] in self.f.mir:
+                        hits.append(self.f.mir[fn["path"]])
+                if len(hits) == 1:
+                    return hits[0]
         for key in ("resolved", "path"):
             p = callee.get(key)
             if p and p in self.f.mir:
